@@ -155,6 +155,25 @@ pub fn world_main(sc: Scenario, trace: bool, finish: Finish) {
         crate::fsmon::sim_clock(true);
     }
     crate::fsmon::set_disk_fault(w.sc.disk_fault.as_ref());
+    // reach probes of the platform knobs (set up by runner::prepare_child)
+    if w.sc.engine != Engine::Pool {
+        let cwd_len = std::env::current_dir().map(|d| d.as_os_str().len()).unwrap_or(usize::MAX);
+        let short = cwd_len <= w.sc.tree.root.len() + 1;
+        let other = unsafe { libc::geteuid() } != 0;
+        w.with(|st| {
+            if short {
+                st.reach("served_directory_has_a_short_absolute_path");
+            }
+            if other {
+                st.reach("server_runs_as_a_user_who_owns_no_served_file");
+            }
+        });
+    }
+    if w.sc.yields.iter().any(|y| y == "stdout_gone") {
+        let h = crate::util::mix(w.sc.sched.seed ^ 0x57d0, 1);
+        let errno = [libc::EPIPE, libc::ENOSPC, libc::EIO, libc::EBADF, libc::EAGAIN][(h % 5) as usize];
+        crate::fsmon::stdout_gone(errno, ((h >> 8) % 24) as i64);
+    }
     match w.sc.engine {
         Engine::Pool => pool_world(finish),
         Engine::System | Engine::Legacy => node_world(finish),
